@@ -705,6 +705,9 @@ where
                     return Err(RecvError::InvalidIndex(i));
                 }
                 self.v.insert(i, v);
+                if self.v.len() > self.max_size {
+                    return Err(RecvError::MaxSizeExceeded(self.max_size));
+                }
             }
             VecDequeEvent::Set(i, v) => {
                 if i >= self.v.len() {
@@ -731,6 +734,9 @@ where
                 self.v.swap_remove_front(i);
             }
             VecDequeEvent::Resize(l, v) => {
+                if l > self.v.len() && l > self.max_size {
+                    return Err(RecvError::MaxSizeExceeded(self.max_size));
+                }
                 self.v.resize(l, v);
             }
             VecDequeEvent::Truncate(l) => {
